@@ -28,10 +28,10 @@ kust_gen = "configMapGenerator:\n- name: x\n  literals:\n  - k=v\n"
 builds = [
   {"files":{"/a/kustomization.yaml":"resources:\n- r.yaml\n"+kust_gen+"sortOptions:\n  order: fifo\n",
             "/a/r.yaml":"apiVersion: v1\nkind: ConfigMap\nmetadata:\n  name: x-bdg947hgcc\n  annotations:\n    config.kubernetes.io/local-config: \"true\"\ndata:\n  other: thing\n"},
-   "dir":"/a","reorder":"legacy","note":"finding: local-config resource named like a hashed generator output, sortOptions fifo"},
+   "dir":"/a","reorder":"legacy","note":"regression (fixed 9a490e0): local-config resource named like a hashed generator output, sortOptions fifo - now a build error"},
   {"files":{"/a/kustomization.yaml":"resources:\n- r.yaml\n"+kust_gen,
             "/a/r.yaml":"apiVersion: v1\nkind: ConfigMap\nmetadata:\n  name: x-bdg947hgcc\n  annotations:\n    config.kubernetes.io/local-config: \"true\"\ndata:\n  other: thing\n"},
-   "dir":"/a","reorder":"none","note":"same with the library default options (Reorder none, no sortOptions)"},
+   "dir":"/a","reorder":"none","note":"regression (fixed 9a490e0): same with the library default options (Reorder none, no sortOptions) - now a build error"},
   {"files":{"/a/kustomization.yaml":"resources:\n- r.yaml\n"+kust_gen,
             "/a/r.yaml":"apiVersion: v1\nkind: ConfigMap\nmetadata:\n  name: x-bdg947hgcc\n  annotations:\n    config.kubernetes.io/local-config: \"true\"\ndata:\n  other: thing\n"},
    "dir":"/a","reorder":"legacy","note":"same under the legacy order: the build fails instead"},
